@@ -1,7 +1,10 @@
 (* C19 — time-domain detrending and RMS integration (statements only).
-   PARTIAL: detrending proved for order 0; orders 1..5 rest on np.polyfit's least-squares contract (validated numerically). *)
+   Detrending: order 0 is proved outright; for every order p the three claims (orthogonal to every polynomial of degree <= p,
+   such a polynomial goes to zero, idempotent — and more generally adding a polynomial trend does not change the output) are
+   proved for any coefficient vector satisfying the normal equations, which is np.polyfit's contract (the normal-equation
+   residual of the implementation is checked numerically on every sampled series). *)
 From Coq Require Import ZArith List Reals.
-From SK Require Import Arith Rms.
+From SK Require Import Arith Rms DetrendPoly LeastSquares.
 Import ListNotations.
 Theorem C19_rms_additive_at_grid_point : forall (l1 l2 : list (R * R)) (p : R * R),
   trapz RA (l1 ++ p :: l2) 0%R = (trapz RA (l1 ++ [p]) 0 + trapz RA (p :: l2) 0)%R.
@@ -20,5 +23,22 @@ Theorem C19_detrend0_kills_constant : forall c n, (0 < n)%nat -> detrend0 (repea
 Proof. exact detrend0_kills_constant. Qed.
 Theorem C19_detrend0_idempotent : forall l, l <> [] -> detrend0 (detrend0 l) = detrend0 l.
 Proof. exact detrend0_idempotent. Qed.
+(* every order: t = 0..n-1, basis t^k (k <= order), "fit" = any solution of the normal equations *)
+Theorem C19_detrend_orthogonal_to_polynomials : forall (n order : nat) x c a,
+  normal_eqs n (S order) monomial x c -> Sum n (fun i => (polyval_at order a i * resid (S order) monomial x c i)%R) = 0%R.
+Proof. exact C19_polyfit_residual_orthogonal. Qed.
+Theorem C19_detrend_kills_polynomials : forall (n order : nat) a c,
+  normal_eqs n (S order) monomial (polyval_at order a) c -> forall i, (i < n)%nat -> resid (S order) monomial (polyval_at order a) c i = 0%R.
+Proof. exact C19_polynomial_detrended_to_zero. Qed.
+Theorem C19_detrend_idempotent : forall (n order : nat) x c c',
+  normal_eqs n (S order) monomial x c -> normal_eqs n (S order) monomial (resid (S order) monomial x c) c' ->
+  forall i, (i < n)%nat -> resid (S order) monomial (resid (S order) monomial x c) c' i = resid (S order) monomial x c i.
+Proof. intros n order. exact (detrend_idempotent n (S order) monomial). Qed.
+Theorem C19_detrend_removes_only_the_trend : forall (n order : nat) x x' a c c',
+  (forall i, (i < n)%nat -> x' i = (x i + polyval_at order a i)%R) ->
+  normal_eqs n (S order) monomial x c -> normal_eqs n (S order) monomial x' c' ->
+  forall i, (i < n)%nat -> resid (S order) monomial x' c' i = resid (S order) monomial x c i.
+Proof. intros n order. exact (residual_ignores_span n (S order) monomial). Qed.
 Print Assumptions C19_rms_monotone_under_nesting.
+Print Assumptions C19_detrend_removes_only_the_trend.
 Print Assumptions C19_detrend0_idempotent.
